@@ -19,13 +19,17 @@ ROUND5 = "--round5" in sys.argv
 if ROUND5:
     sys.argv.remove("--round5")
     LOG = "/tmp/seed/confirm5.log"
+ROUND6 = "--round6" in sys.argv
+if ROUND6:
+    sys.argv.remove("--round6")
+    LOG = "/tmp/seed/confirm6.log"
 
 
 def confirmations():
     out = {}
     if os.path.exists(LOG):
         for line in open(LOG):
-            m = re.match(r"(\S+/w[t5]_(C\d+)/_seeded/change_(\d+)) demo_with_exit=(\d+) demo_without_exit=(\d+) suite: (.*)", line)
+            m = re.match(r"(\S+/w[t56]_(C\d+)/_seeded/change_(\d+)) demo_with_exit=(\d+) demo_without_exit=(\d+) suite: (.*)", line)
             if m:
                 out[(m.group(2), int(m.group(3)))] = {"demo_exit_with_change": int(m.group(4)), "demo_exit_on_clean_tree": int(m.group(5)), "suite_with_change": m.group(6).strip()}
     return out
@@ -35,7 +39,7 @@ def main(argv):
     conf = confirmations()
     for prop in argv:
         for n in (1, 2, 3):
-            src = f"/tmp/seed/{'w5' if ROUND5 else 'wt'}_{prop}/_seeded/change_{n}"
+            src = f"/tmp/seed/{'w6' if ROUND6 else 'w5' if ROUND5 else 'wt'}_{prop}/_seeded/change_{n}"
             if not os.path.isdir(src):
                 continue
             c = conf.get((prop, n))
@@ -48,7 +52,7 @@ def main(argv):
                 continue
             head_patch = os.path.join(src, "patch_head.diff")
             ev = eval_seed.evaluate(head_patch if os.path.exists(head_patch) else os.path.join(src, "patch.diff"))
-            dst = os.path.join(VERIF, "seeded", f"{prop}_r5_change{n}" if ROUND5 else f"{prop}_change{n}")
+            dst = os.path.join(VERIF, "seeded", f"{prop}_r6_change{n}" if ROUND6 else f"{prop}_r5_change{n}" if ROUND5 else f"{prop}_change{n}")
             os.makedirs(dst, exist_ok=True)
             for f in os.listdir(src):
                 if os.path.isfile(os.path.join(src, f)) and os.path.getsize(os.path.join(src, f)) < 200_000:
